@@ -46,7 +46,8 @@ ALL_EXT = {e: f for f, es in WRITE_EXT.items() for e in es}
 
 DEST_STATES = ['absent', 'missing_dir', 'file_empty', 'file_junk',
                'symlink_file', 'symlink_dangling', 'symlink_dir', 'directory',
-               'reuse', 'badname']
+               'reuse', 'badname', 'symlink_chain', 'symlink_abs',
+               'symlink_updir', 'symlink_loop', 'linked_parent', 'hardlink']
 FAULTS = ['none', 'elem', 'bad_option', 'warn_elem', 'unencodable',
           'nonascii_ok']
 
@@ -88,11 +89,53 @@ def _ok_region(rng, fmt):
 def _failing_region(rng, fmt, warn=False):
     """A region that the format cannot express (or only with a warning)."""
     kinds = {
-        'ds9': ['compound_pix', 'compound_sky', 'frame'],
-        'crtf': ['compound_sky', 'compound_pix', 'annulus', 'pixel_default'],
-        'fits': ['sky', 'unsupported_cls', 'compound_pix', 'component'],
+        'ds9': ['compound_pix', 'compound_sky', 'frame', 'malformed'],
+        'crtf': ['compound_sky', 'compound_pix', 'annulus', 'pixel_default',
+                 'malformed'],
+        'fits': ['sky', 'unsupported_cls', 'compound_pix', 'component',
+                 'malformed'],
     }[fmt]
     kind = rng.pick(kinds)
+    if kind == 'malformed':
+        # whitelisted keys holding values of the wrong shape, and regions
+        # whose public data were changed after construction: the serialiser
+        # fails with TypeError / IndexError / AttributeError / ValueError
+        r = _ok_region(rng, fmt)
+        simple = r.get('t') == 'region' and 'center' in r['params']
+        how = rng.pick({
+            'ds9': ['tag_int', 'linestyle_short', 'fill_str', 'center_x_str',
+                    'poke_size'],
+            'crtf': ['range_int', 'poke_size', 'poke_center',
+                     'center_x_none'],
+            'fits': ['center_x_str', 'poke_center', 'poke_size']}[fmt])
+        if how == 'tag_int':
+            r['meta'] = {'t': 'meta', 'v': [['tag', 5]]}
+        elif how == 'linestyle_short':
+            r['visual'] = {'t': 'visual', 'v': [
+                ['linestyle', {'t': 'tuple', 'v': [0, {'t': 'tuple',
+                                                       'v': [3]}]}]]}
+        elif how == 'fill_str':
+            r['visual'] = {'t': 'visual', 'v': [['fill', 'x']]}
+        elif how == 'range_int':
+            r['meta'] = {'t': 'meta', 'v': [['range', 5]]}
+        elif not simple:
+            r['meta'] = {'t': 'meta', 'v': [['tag', 5], ['range', 5]]}
+        elif how.startswith('center_x') and                 not r['cls'].endswith('PixelRegion'):
+            r['poke'] = [['center', None]]
+        elif how == 'center_x_str':
+            r['setpub'] = [['center', 'x', 'a']]
+        elif how == 'center_x_none':
+            r['setpub'] = [['center', 'x', None]]
+        elif how == 'poke_center':
+            r['poke'] = [['center', None]]
+        elif how == 'poke_size':
+            size = [k for k in r['params'] if k not in ('center', 'angle',
+                                                        'text')]
+            if size:
+                r['poke'] = [[rng.pick(sorted(size)), 'x']]
+            else:
+                r['poke'] = [['center', None]]
+        return 'malformed:' + how, r
     if kind == 'compound_pix':
         return kind, gen.compound_region(rng, sky=False, depth=0)
     if kind == 'compound_sky':
@@ -222,7 +265,8 @@ def gen_step(rng, fmt, dest_state, overwrite, fault, encoding, names, idx):
     step['kwargs'] = kwargs
     # ---- destination and how the format is resolved
     res = rng.weighted([('explicit', 4), ('ext', 5), ('explicit_neutral', 2),
-                        ('unknown_ext', 1), ('unknown_format', 1)])
+                        ('unknown_ext', 1), ('unknown_format', 1),
+                        ('explicit_odd', 1.5)])
     ext = rng.pick(WRITE_EXT[fmt])
     if rng.chance(0.15):
         ext = ext.upper()
@@ -237,6 +281,17 @@ def gen_step(rng, fmt, dest_state, overwrite, fault, encoding, names, idx):
     elif res == 'explicit_neutral':
         step['format'] = fmt
         name = base + rng.pick(['.txt', '.dat', ''])
+    elif res == 'explicit_odd':
+        # names with a leading dot, several dots, glob characters, or a
+        # compression suffix (the format is given)
+        step['format'] = fmt
+        odd = ['.hidden' + base + ext, base + '.v1.2' + ext,
+               base + '[1]*' + ext]
+        if fmt != 'fits':
+            # (astropy's FITS writer compresses by suffix; the text writers
+            # write plain text whatever the name says)
+            odd += [base + ext + '.gz', base + ext + '.bz2', base + '.gz']
+        name = rng.pick(odd)
     elif res == 'unknown_ext':
         step['format'] = None
         name = base + rng.pick(['.txt', '.region', '.out'])
@@ -276,6 +331,59 @@ def gen_step(rng, fmt, dest_state, overwrite, fault, encoding, names, idx):
     elif dest_state == 'symlink_dangling':
         prep.append({'op': 'symlink', 'path': name,
                      'target': f'nothing{idx}.dat'})
+    elif dest_state == 'symlink_chain':
+        # name -> middle link -> file (or -> nothing)
+        end = rng.pick(['file', 'file', 'nothing'])
+        if end == 'file':
+            prep.append({'op': 'mkfile', 'path': f'{sub}target{idx}.dat',
+                         'content': rng.pick(['junk', 'text', 'empty'])})
+        prep.append({'op': 'symlink', 'path': f'{sub}mid{idx}.lnk',
+                     'target': f'target{idx}.dat'})
+        prep.append({'op': 'symlink', 'path': name,
+                     'target': f'mid{idx}.lnk'})
+        label['chain_end'] = end
+    elif dest_state == 'symlink_abs':
+        # an absolute link target ({disk} is the run's private root)
+        prep.append({'op': 'mkfile', 'path': f'target{idx}.dat',
+                     'content': rng.pick(['junk', 'text', 'empty'])})
+        prep.append({'op': 'symlink', 'path': name,
+                     'target': '{disk}/' + f'target{idx}.dat'})
+    elif dest_state == 'symlink_updir':
+        # the link and its target live in different directories
+        if sub:
+            prep.append({'op': 'mkfile', 'path': f'target{idx}.dat',
+                         'content': rng.pick(['junk', 'text', 'empty'])})
+            prep.append({'op': 'symlink', 'path': name,
+                         'target': f'../target{idx}.dat'})
+        else:
+            prep.append({'op': 'mkfile', 'path': f'sub/target{idx}.dat',
+                         'content': rng.pick(['junk', 'text', 'empty'])})
+            prep.append({'op': 'symlink', 'path': name,
+                         'target': f'sub/target{idx}.dat'})
+    elif dest_state == 'symlink_loop':
+        if rng.chance(0.5):
+            prep.append({'op': 'symlink', 'path': name,
+                         'target': os.path.basename(name)})
+        else:
+            prep.append({'op': 'symlink', 'path': f'{sub}loop{idx}.lnk',
+                         'target': os.path.basename(name)})
+            prep.append({'op': 'symlink', 'path': name,
+                         'target': f'loop{idx}.lnk'})
+    elif dest_state == 'linked_parent':
+        # the destination's directory is itself a symbolic link
+        prep.append({'op': 'mkdir', 'path': f'realdir{idx}'})
+        prep.append({'op': 'symlink', 'path': f'ldir{idx}',
+                     'target': f'realdir{idx}'})
+        name = f'ldir{idx}/' + os.path.basename(name)
+        if rng.chance(0.5):
+            prep.append({'op': 'mkfile', 'path': name,
+                         'content': rng.pick(['junk', 'text', 'empty'])})
+    elif dest_state == 'hardlink':
+        # the destination has a second name
+        prep.append({'op': 'mkfile', 'path': f'{sub}other{idx}.dat',
+                     'content': rng.pick(['junk', 'text'])})
+        prep.append({'op': 'hardlink', 'path': name,
+                     'target': f'{sub}other{idx}.dat'})
     elif dest_state == 'symlink_dir':
         prep.append({'op': 'mkdir', 'path': f'{sub}adir{idx}'})
         prep.append({'op': 'symlink', 'path': name, 'target': f'adir{idx}'})
@@ -288,6 +396,8 @@ def gen_step(rng, fmt, dest_state, overwrite, fault, encoding, names, idx):
     step['overwrite_as'] = rng.weighted(
         [('bool', 6), ('int', 1), ('numpy', 1), ('none', 1)])
     step['pathlib'] = rng.chance(0.25)
+    # ... or as some other os.PathLike object
+    step['pathlike'] = rng.chance(0.08)
     # the destination as a bytes path / format and overwrite given
     # positionally (write(filename, format, overwrite))
     step['bytes_path'] = (not step['pathlib']) and rng.chance(0.1)
@@ -323,7 +433,43 @@ def gen_plan(seed, index, tier='quick'):
                  ops.chance(0.5),
                  ops.weighted([('none', 4), ('elem', 2), ('bad_option', 1),
                                ('unencodable', 1)]))
+        how = 'fresh'
+        if i > 0 and c[3] == 'none':
+            how = ops.weighted([('fresh', 8), ('same_objects', 4),
+                                ('from_readback', 3)])
+            if how == 'same_objects' and (
+                    steps[i - 1]['label']['fault'] != 'none'
+                    or (i == cell_at and steps[i - 1]['fmt'] != c[0])):
+                how = 'fresh'     # (the fault would travel with the objects)
+            if how == 'same_objects':
+                c = (steps[i - 1]['fmt'],) + tuple(c[1:])
+            if how != 'fresh' and i != cell_at and ops.chance(0.5):
+                # more often than not, let the second write go through
+                c = (c[0], ops.pick(['absent', 'reuse', 'file_junk']), True,
+                     c[3])
         st = gen_step(ops, c[0], c[1], c[2], c[3], cfg['encoding'], names, i)
+        if st['label']['fault'] != 'none':
+            how = 'fresh'
+        if how != 'fresh':
+            if how == 'same_objects':
+                # the very objects the previous step wrote, in the same
+                # format but with other option values (a writer must not
+                # leave marks on what it has written, nor remember how it
+                # wrote it)
+                prev = steps[i - 1]
+                st['regions'] = prev['regions']
+                st['source'] = 'same_objects'
+                st['api'] = 'Regions'
+                kw = dict(prev['kwargs'])
+                if c[0] == 'ds9':
+                    kw['precision'] = 1 if kw.get('precision') != 1 else 9
+                elif c[0] == 'crtf':
+                    kw['fmt'] = '.1f' if kw.get('fmt') != '.1f' else '.6f'
+                st['kwargs'] = kw
+            elif how == 'from_readback':
+                # what the previous step wrote, read back from its file
+                st['source'] = 'from_readback'
+                st['api'] = 'Regions'
         steps.append(st)
         if st['dest'] not in names and not st['dest'].startswith('nodir'):
             names.append(st['dest'])
@@ -346,7 +492,7 @@ def snapshot(root):
             rel = os.path.relpath(p, root)
             st = os.lstat(p)
             if stat.S_ISLNK(st.st_mode):
-                out[rel] = ['link', os.readlink(p)]
+                out[rel] = ['link', os.readlink(p).replace(root, '<disk>')]
             elif stat.S_ISDIR(st.st_mode):
                 out[rel] = ['dir', stat.S_IMODE(st.st_mode)]
             else:
@@ -385,6 +531,19 @@ def clean_msg(exc, root):
     return _ADDR.sub('0x', str(exc)[:300].replace(root, '<run>'))[:200]
 
 
+class _PathLike:
+    """A minimal os.PathLike that is neither str nor pathlib.Path."""
+
+    def __init__(self, p):
+        self._p = p
+
+    def __fspath__(self):
+        return self._p
+
+    def __repr__(self):
+        return f'_PathLike({self._p!r})'
+
+
 class Run:
     def __init__(self, plan, ctx):
         self.plan = plan
@@ -421,6 +580,52 @@ class Run:
         # rel: relative to cwd (= disk)
         return os.path.relpath(os.path.join(root, rel), os.getcwd())
 
+    def real_rel(self, rel):
+        d, b = os.path.split(os.path.join(self.disk, rel))
+        try:
+            d = os.path.realpath(d)
+        except (OSError, ValueError):
+            pass
+        return os.path.normpath(os.path.relpath(os.path.join(d, b),
+                                                os.path.realpath(self.disk)))
+
+    def link_closure(self, rel):
+        out = set()
+        cur = rel
+        for _ in range(12):
+            cur = self.real_rel(cur)
+            if cur in out:
+                break
+            out.add(cur)
+            full = os.path.join(self.disk, cur)
+            try:
+                if not os.path.islink(full):
+                    break
+                t = os.readlink(full)
+            except (OSError, ValueError):
+                break
+            if os.path.isabs(t):
+                cur = os.path.relpath(t, os.path.realpath(self.disk))
+            else:
+                cur = os.path.normpath(os.path.join(os.path.dirname(cur), t))
+        # other names of the same inode
+        try:
+            st = os.stat(os.path.join(self.disk, rel))
+            if stat.S_ISREG(st.st_mode) and st.st_nlink > 1:
+                for dirpath, _, files in os.walk(self.disk):
+                    for f in files:
+                        p = os.path.join(dirpath, f)
+                        try:
+                            s2 = os.lstat(p)
+                        except OSError:
+                            continue
+                        if s2.st_ino == st.st_ino and \
+                                stat.S_ISREG(s2.st_mode):
+                            out.add(os.path.relpath(p, self.disk))
+        except (OSError, ValueError):
+            pass
+        return out
+
     def violation(self, oracle, step_i, step, detail, extra=None):
         sig = {'property': PROPERTY, 'oracle': oracle, 'fmt': step['fmt'],
                'detail': detail,
@@ -440,11 +645,23 @@ class Run:
             # given: extension-based identification documents str names)
             import pathlib
             dest_path = pathlib.Path(dest_path)
+        elif step.get('pathlike') and step['format'] is not None and \
+                isinstance(dest_path, str):
+            dest_path = _PathLike(dest_path)
         if step.get('bytes_path') and step['format'] is not None and \
                 isinstance(dest_path, str) and \
                 self.cfg['path_style'] != 'tilde':
             dest_path = os.fsencode(dest_path)
         regs = [build(r) for r in step['regions']]
+        src = step.get('source')
+        if src == 'same_objects' and getattr(self, 'prev_regs', None) \
+                is not None and len(self.prev_regs) == len(regs):
+            regs = self.prev_regs
+        elif src == 'from_readback':
+            got = self.read_prev()
+            if got is not None:
+                regs = got
+        self.last_regs = regs
         kw = {k: build(v) for k, v in step['kwargs'].items()}
         if step['overwrite'] is not None:
             import numpy as np
@@ -476,6 +693,20 @@ class Run:
         trace.extend(seam.trace)
         return outcome, wrec
 
+    def read_prev(self):
+        """Fresh objects read from the file the previous successful step
+        wrote (None if there is none)."""
+        from regions import Regions
+        prev = getattr(self, 'prev_file', None)
+        if not prev or not os.path.isfile(prev[0]):
+            return None
+        try:
+            wrec = []
+            with warnings_mode('default', wrec):
+                return list(Regions.read(prev[0], format=prev[1]))
+        except Exception:
+            return None
+
     def reference(self, step):
         """parse(serialize(fresh regions)) computed independently of the
         file; returns canon list or None if unavailable."""
@@ -483,6 +714,8 @@ class Run:
         fmt = step['fmt']
         try:
             regs = [build(r) for r in step['regions']]
+            if step.get('source') == 'from_readback':
+                regs = self.ref_prev if self.ref_prev is not None else regs
             kw = {k: build(v) for k, v in step['kwargs'].items()
                   if k != 'header'}
             wrec = []
@@ -531,7 +764,9 @@ class Run:
                 with open(full, 'wb') as fh:
                     fh.write(data)
             elif p['op'] == 'symlink':
-                os.symlink(p['target'], full)
+                os.symlink(p['target'].replace('{disk}', self.disk), full)
+            elif p['op'] == 'hardlink':
+                os.link(os.path.join(self.disk, p['target']), full)
             elif p['op'] == 'mkdir':
                 os.mkdir(full)
 
@@ -551,6 +786,13 @@ class Run:
         dest_rel = os.path.normpath(step['dest'])
         dest_path = self.path(step['dest'])
         existed = os.path.lexists(os.path.join(self.disk, dest_rel))
+        # the snapshot does not descend into linked directories: the entry
+        # of the destination is the one below its real parent directory
+        dest_link = dest_rel
+        dest_rel = self.real_rel(dest_rel)
+        # every entry the destination name leads to (links resolved hop by
+        # hop) and every other name of the same file (hard links)
+        reachable = self.link_closure(dest_rel)
         if self.cfg['path_style'] == 'tilde' and step['fmt'] != 'fits':
             # the text writers document plain file names and do not expand
             # "~": for them "~/name" is a relative path below a directory
@@ -558,7 +800,13 @@ class Run:
             existed = os.path.lexists(dest_path)
         dest_before = before.get(dest_rel)
         trace = []
+        # (for 'from_readback' steps the reference is taken from a second,
+        # independent read of the previous file, before this write can
+        # touch that file)
+        self.ref_prev = self.read_prev() \
+            if step.get('source') == 'from_readback' else None
         outcome, wrec = self.call_write(step, dest_path, trace)
+        self.prev_regs = self.last_regs if outcome[0] == 'ok' else None
         after = snapshot(self.disk)
         changes = snap_diff(before, after)
         ev = {'step': i, 'fmt': step['fmt'], 'api': step['api'],
@@ -628,11 +876,7 @@ class Run:
                     f'after modifying existing entries: '
                     + '; '.join(_describe_change(c) for c in clobbered))
         # W3: only the destination (or what it links to) may change
-        allowed = {dest_rel}
-        if dest_before and dest_before[0] == 'link':
-            tgt = os.path.normpath(os.path.join(os.path.dirname(dest_rel),
-                                                dest_before[1]))
-            allowed.add(tgt)
+        allowed = set(reachable)
         collateral = [c for c in changes if c[0] not in allowed]
         if collateral:
             self.violation('W3-collateral', i, step,
@@ -641,10 +885,12 @@ class Run:
                                        for c in collateral))
         full = os.path.join(self.disk, dest_rel)
         if not os.path.isfile(full):
+            self.prev_file = None
             self.violation('W3-notfile', i, step,
                            f'after a successful write the destination is '
                            f'not a regular file: {after.get(dest_rel)}')
             return after
+        self.prev_file = (full, step['fmt'])
         self.readback(i, step, dest_rel,
                       os.path.join(self.disk, dest_rel)
                       if self.cfg['path_style'] == 'tilde' else dest_path)
@@ -730,7 +976,7 @@ class Run:
             data = fh.read()
         gz = gzip.compress(data, mtime=0)
         variants = [('format', dest_path, fmt)]
-        lower = dest_rel.lower()
+        lower = re.sub(r'\.(gz|bz2)$', '', dest_rel.lower())
         ext_fmt = [f for e, f in ALL_EXT.items() if lower.endswith(e)]
         if not ext_fmt or ext_fmt[0] == fmt:
             variants.append(('inferred', dest_path, None))
@@ -756,6 +1002,14 @@ class Run:
         variants.append(('gz-neutral', put('copy.bin', gz), None))
         for e in WRITE_EXT[fmt]:
             variants.append(('ext' + e, put('copy' + e, data), None))
+        if data[:2] == b'\x1f\x8b' or data[:3] == b'BZh':
+            # astropy's FITS writer compresses when the NAME asks for it
+            # (.gz / .bz2): the file on disk already is the compressed form,
+            # so copies of it are not "a renamed or gzip-compressed copy" of
+            # a region file; only the read of the destination itself applies
+            variants = [v for v in variants if v[0] == 'format']
+            self.stats['readback_compressed_by_name'] = \
+                self.stats.get('readback_compressed_by_name', 0) + 1
         for name, path, f in variants:
             self.stats['readbacks'] += 1
             wrec = []
@@ -824,7 +1078,7 @@ def abstract_states(result):
 
 # ------------------------------------------------------ driver interface
 RULE = ('seeded search: run i is assigned cell (i mod #cells) of format x '
-        'destination-state x overwrite x fault-kind (all 360 cells), the '
+        'destination-state x overwrite x fault-kind (all 576 cells), the '
         'remaining 0-3 steps, list lengths, failing position, API, format '
         'resolution, options and ambient configuration are drawn from the '
         'run seed. A state is the tuple (format, api, destination entry '
@@ -858,9 +1112,9 @@ def preload():
 
 
 def tiers(**kw):
-    return {'quick': {'runs': 1620, 'selftest': 24, 'limit': 120,
+    return {'quick': {'runs': 2304, 'selftest': 24, 'limit': 120,
                       'chunk': 12},
-            'thorough': {'runs': 54000, 'selftest': 256, 'limit': 120,
+            'thorough': {'runs': 57600, 'selftest': 256, 'limit': 120,
                          'chunk': 40, 'min_budget': 250}}
 
 
